@@ -1019,6 +1019,14 @@ func (c *fctx) stmt(d int) []Instr {
 			n := append(c.expr(I32, d-1), i32c(0x3f), Instr{Op: OpNamed("i32.and")})
 			c.tick(70)
 			return append(append(append(dst, mid...), n...), Instr{Op: op})
+		case 20: // memory.init with length 0 (active segments are dropped after instantiation)
+			if !hasMem || !g.opt.MemoryInit || len(m.Data) == 0 {
+				continue
+			}
+			g.hit(FeatMemoryInit)
+			c.tick(4)
+			dst := append(c.expr(I32, d-1), i32c(0xfff), Instr{Op: OpNamed("i32.and")})
+			return append(dst, i32c(0), i32c(0), Instr{Op: OpMemoryInit, X: uint32(g.intn("initseg", 0, len(m.Data)-1))})
 		case 14: // table.get / table.set: copy a slot onto itself (keeps the slot map)
 			if m.Table == nil || !g.on(FeatTableSet) || !g.on(FeatTableGet) {
 				continue
